@@ -3805,7 +3805,6 @@ namespace bloch::runtime {
             if (!var)
                 throw BlochError(ErrorCategory::Runtime, aassign->line, aassign->column,
                                  "assignment target must be a variable");
-            Value arr = lookup(var->name);
             Value idxv = eval(aassign->index.get());
             int i = 0;
             if (idxv.type == Value::Type::Int)
@@ -3820,6 +3819,9 @@ namespace bloch::runtime {
                 throw BlochError(ErrorCategory::Runtime, aassign->line, aassign->column,
                                  "index must be numeric");
             Value rhs = eval(aassign->value.get());
+            // Arrays are values: read the array only now, so that writes made to it while the
+            // index and the right-hand side were evaluated ('a[0] = (a[1] = 5)') are kept.
+            Value arr = lookup(var->name);
             switch (arr.type) {
                 case Value::Type::IntArray:
                     if (i < 0 || i >= static_cast<int>(arr.intArray.size()))
